@@ -442,6 +442,23 @@ theorem C12_inflight_last_op (ops : List InflOp) (r : Rec) (id : Nat) :
   · exact h
   · exact absurd hid h
 
+open Mochi.InflOrder in
+/-- what `GetAll` / `getAll(true)` hand out never names one packet id twice: in every store with one record per id
+    (hence in every reachable store, `C12_inflight_reachable_unique`) the ids of the returned records are pairwise
+    different — a resend after session resumption cannot transmit two packets under one identifier -/
+theorem C12_inflight_getAll_ids_nodup (s : Store) (imm : Bool) (h : UniqueIds s) :
+    ((getAll s imm).map (·.id)).Nodup := by
+  have hp : ((getAll s imm).map (·.id)).Perm ((candidates s imm).map (·.id)) := (getAll_perm s imm).map _
+  refine hp.nodup_iff.mpr ?_
+  unfold candidates
+  exact (List.filter_sublist.map _).nodup h
+
+open Mochi.InflOrder in
+theorem C12_inflight_reachable_getAll_ids_nodup (ops : List InflOp) (imm : Bool) :
+    ((getAll (inflRun [] ops) imm).map (·.id)).Nodup :=
+  C12_inflight_getAll_ids_nodup _ imm (C12_inflight_reachable_unique ops)
+
+#print axioms C12_inflight_reachable_getAll_ids_nodup
 #print axioms C12_inflight_reachable_unique
 #print axioms C12_inflight_last_op
 #print axioms C12_distinct_seconds_unique_order
